@@ -262,7 +262,9 @@ def rule_r1(ctx, results, facts):
         r.stale = sorted(stale)
     r.need("at least 100 panic-capable sites analysed", r.sites >= 100)
     npre = len([1 for (fn, term), o in sites.items() if o["kind"] == "Precondition"])
-    r.need("both constructions of the circular window checked for dict_size >= 1 (found %d)" % npre, npre >= 2)
+    # LzmaDecoder::decompress always; Stream's run state only exists with the "stream" feature
+    want = 2 if "stream" in (ctx.default_cfg or "") else 1
+    r.need("every construction of the circular window checked for dict_size >= 1 (found %d of %d)" % (npre, want), npre >= want)
     return r
 
 
